@@ -124,6 +124,17 @@ func Param(name string) int {
 	return v
 }
 
+// ParamOr is Param with a default for parameters a props file may omit.
+func ParamOr(name string, def int) int {
+	if cur == nil {
+		panic("zzverif: param requested outside a replay")
+	}
+	if v, ok := cur.Params[name]; ok {
+		return v
+	}
+	return def
+}
+
 func IteInt64(c bool, a, b int64) int64 {
 	if c {
 		return a
